@@ -463,9 +463,16 @@ pub struct Scripted {
     /// the peer keeps the connection open: at the end of the data a read stays pending instead of returning 0
     pub open: bool,
 }
+/// a pattern entry that stands for "nothing has arrived yet": the read is pending once (and woken at once), no bytes
+pub const PAUSE: usize = 4_242_424_242;
 impl tokio::io::AsyncRead for Scripted {
     fn poll_read(mut self: Pin<&mut Self>, _cx: &mut Context<'_>, buf: &mut tokio::io::ReadBuf<'_>) -> Poll<std::io::Result<()>> {
         let want = if self.pattern.is_empty() { usize::MAX } else { self.pattern[self.call % self.pattern.len()].max(1) };
+        if want == PAUSE && self.pos < self.data.len() {
+            self.call += 1;
+            _cx.waker().wake_by_ref();
+            return Poll::Pending;
+        }
         let k = want.min(buf.remaining()).min(self.data.len() - self.pos);
         if k == 0 && self.open && buf.remaining() > 0 {
             return Poll::Pending;
